@@ -57,6 +57,18 @@ def split_traces(rep, tier, seed):
         meta = {"n": n, "kind": kind, "num": num, "den": den, "percentage": pct, "seed": seedv, "X": X.tolist(), "Y": Y.tolist()}
         try:
             X1, X2, Y1, Y2, I1, I2 = sp.split_with_index(X.copy(), Y.copy(), pct, seedv)
+            # what a split returns is the caller's: every second time the caller keeps copies and goes on to work IN the returned arrays
+            # (sorted index arrays, rescaled features, relabelled classes) - a later split of the same data with the same seed is still
+            # the split that seed determines
+            if len(traces) % 2 == 1:
+                X1, X2, Y1, Y2, I1, I2 = [np.array(v).copy() for v in (X1, X2, Y1, Y2, I1, I2)]
+                w1, w2, v1, v2, k1, k2 = sp.split_with_index(X.copy(), Y.copy(), pct, seedv)
+                for arr in (w1, w2, v1, v2, k1, k2):
+                    try:
+                        arr.sort(axis=0)
+                        arr *= 0
+                    except Exception:
+                        pass
             a1, a2, b1, b2 = sp.split(X.copy(), Y.copy(), pct, seedv)
             c1, c2, d1, d2, J1, J2 = sp.split_with_index(X.copy(), Y.copy(), pct, seedv)
             e1, e2, f1, f2 = sp.split(X.copy(), Y.copy(), pct, seedv)
